@@ -134,8 +134,59 @@ async fn content_filter(ctx: Ctx, expr: &'static str, param: &'static str, pass_
     }
 }
 
+/// filters on the other members of the type and malformed parameters: whatever the filter, the reader must present
+/// exactly the passing samples - or the filter must be refused when it is created - and the participant must survive
+async fn content_filter_other(ctx: Ctx, expr: &'static str, param: &'static str, passes: fn(&FilterData) -> bool) {
+    let f = ctx.factory("", None);
+    let n1 = node::<FilterData>(&f, 0, "T").await;
+    let n2 = node::<FilterData>(&f, 0, "T").await;
+    let cft = match n2.participant.create_contentfilteredtopic("TF", &n2.topic, expr.to_string(), vec![param.to_string()]).await {
+        Ok(c) => c,
+        Err(_) => {
+            ctx.obs("filter refused at creation");
+            return;
+        }
+    };
+    let w = n1.publisher.create_datawriter::<FilterData>(&n1.topic, QosKind::Specific(reliable_w(HistoryQosPolicyKind::KeepAll, Some(100))), NO_LISTENER, NO_STATUS).await.expect("writer");
+    let r = match n2.subscriber.create_datareader::<FilterData>(&cft, QosKind::Specific(reliable_r(HistoryQosPolicyKind::KeepAll)), NO_LISTENER, NO_STATUS).await {
+        Ok(r) => r,
+        Err(_) => {
+            ctx.obs("reader on the filtered topic refused");
+            return;
+        }
+    };
+    if !wait_pub_matched(&ctx, &w, 1, 3000).await {
+        ctx.violation("setup/no-match", "writer did not match the filtered reader");
+        return;
+    }
+    let samples = [FilterData { id: 1, x: 5, s: "a".into(), seq: 0 }, FilterData { id: 2, x: -1, s: "b".into(), seq: 1 }, FilterData { id: 1, x: 7, s: "".into(), seq: 2 }];
+    let mut expected = vec![];
+    for d in &samples {
+        w.write(d.clone(), None).await.expect("write");
+        if passes(d) {
+            expected.push(d.seq);
+        }
+    }
+    ctx.sleep_ms(500).await;
+    let mut got: Vec<u32> = take_all(&r).await.into_iter().filter_map(|s| s.data.map(|d| d.seq)).collect();
+    got.sort();
+    if got != expected {
+        ctx.violation(format!("other-member/wrong-samples/{expr}"), format!("filter `{expr}` %0={param}: samples {expected:?} pass, reader presented {got:?}"));
+    }
+}
+
 pub fn c26(_args: &Args) -> Vec<Scenario> {
     let mut v = vec![];
+    // (a filter naming a member the type does not have is left out: what it should select is not defined)
+    let others: [(&'static str, &'static str, &'static str, fn(&FilterData) -> bool); 4] = [
+        ("u8-eq", "id = %0", "1", |d| d.id == 1),
+        ("u32-eq", "seq = %0", "1", |d| d.seq == 1),
+        ("u32-le", "seq <= %0", "1", |d| d.seq <= 1),
+        ("int-eq-malformed-parameter", "x = %0", "abc", |_| false),
+    ];
+    for (name, expr, param, passes) in others {
+        v.push(Scenario::new(format!("C26.other[{name}]"), 0, move |ctx| content_filter_other(ctx, expr, param, passes)));
+    }
     for (name, expr, param, pass, fail) in [
         ("int-eq", "x = %0", "5", (5, "a"), (6, "a")),
         ("int-le", "x <= %0", "5", (4, "a"), (6, "a")),
